@@ -5,12 +5,12 @@ CONSTANTS Pkgs <- P2
  Under <- UnderSib2
  RootPkg = "none"
  HashCoversSum = FALSE
- SaveAlways = TRUE
+ SaveAlways = FALSE
  KeepAfterDefers = TRUE
- BehChoices <- Beh2
+ BehChoices <- Beh2Small
  ArgsMenu <- Args2
  MaxRuns = 3
- MaxEnv = 2
+ MaxEnv = 1
  MaxSrc = 1
  ConvergeBound = 3
 SPECIFICATION Spec
